@@ -551,6 +551,9 @@ def run_sheet_cases(ctx, scases, impl):
                 order = sorted(range(len(keys)), key=lambda j: (0, 0.0) if keys[j] != keys[j] else (1, keys[j]))
                 want = "".join("%d:%d" % (p + 1, j) for p, j in enumerate(order))
                 got = text_of(root.find("sorted"))
+                ctx.count("sheet-sort:checked")
+                if order != sorted(order):
+                    ctx.count("sheet-sort:order-changed")
                 if got != want:
                     bad.append((c, "numeric sort keys: order %r, the generic values %s sort as %r" % (
                         got, [show(v) for v in item_vals], want)))
@@ -625,12 +628,12 @@ def run(ctx):
         ctx.broken.append("harness does not compile against the working tree: " + hlog[-500:])
         return ctx.finish(LEVEL)
     run_corpus(ctx, impl)
-    n_docs, n_random = (30, 20) if not ctx.thorough else (250, 60)
+    n_docs, n_random = (30, 20) if not ctx.thorough else (1200, 80)
     cases = gen_cases(ctx, n_docs, n_random, 3)
     ctx.cov["samples"] = [c["str"] for c in cases[:12]]
     corr, orc = evaluate(ctx, cases, impl, model)
     try:
-        sbad = run_sheet_cases(ctx, gen_sheet_cases(ctx, 8 if not ctx.thorough else 60, 14), impl)
+        sbad = run_sheet_cases(ctx, gen_sheet_cases(ctx, 8 if not ctx.thorough else 150, 14), impl)
     except RuntimeError as ex:
         ctx.broken.append("stylesheet driver: %s" % ex)
         sbad = []
